@@ -33,6 +33,9 @@ class _Payload(ErrorableProtocol, Protocol):
 class ResponseHandler(BaseProtocol, DataQueue[tuple[RawResponseMessage, StreamReader]]):
     """Helper class to adapt between Protocol and StreamReader."""
 
+    # Set by the connector while the connection waits in its pool.
+    idle = False
+
     def __init__(self, loop: asyncio.AbstractEventLoop) -> None:
         BaseProtocol.__init__(self, loop=loop, parser=None)
         DataQueue.__init__(self, loop)
@@ -377,3 +380,8 @@ class ResponseHandler(BaseProtocol, DataQueue[tuple[RawResponseMessage, StreamRe
 
         if upgraded and tail:
             self.data_received(tail)
+
+        if self.idle and self.should_close:
+            # Bytes nobody asked for (possibly the rest of the read that
+            # completed the last response): the pooled connection is unusable.
+            self.close()
